@@ -8,7 +8,7 @@ use rsdd::builder::bdd::RobddBuilder;
 use rsdd::builder::cache::AllIteTable;
 use rsdd::constants::primes;
 use rsdd::repr::{create_semantic_hash_map, BddPtr, DDNNFPtr, VarLabel, WmcParams};
-use rsdd::util::semirings::{FiniteField, RealSemiring};
+use rsdd::util::semirings::{Complex, FiniteField, RealSemiring};
 use std::collections::HashMap;
 
 fn ff_params<const P: u128>(w: &[(u128, u128)]) -> WmcParams<FiniteField<P>> {
@@ -80,6 +80,8 @@ pub fn wmc_lines(rng: &mut Rng, maxvars: usize, maxops: usize) -> Vec<String> {
         .collect();
     let wa: Vec<(u128, u128)> = (0..n).map(|_| (rng.range(0, 5) as u128, rng.range(0, 5) as u128)).collect();
     let wr: Vec<u64> = (0..n).map(|_| rng.below(9)).collect();
+    // complex weights in quarters, low + high = 1 + 0i; about half of the variables purely real
+    let wc: Vec<(i64, i64)> = (0..n).map(|_| (rng.below(9) as i64 - 2, if rng.coin() { 0 } else { rng.below(7) as i64 - 3 })).collect();
 
     let mut out = Vec::new();
     rsdd::verif_hooks::set_table_capacity(Some(8));
@@ -102,14 +104,15 @@ pub fn wmc_lines(rng: &mut Rng, maxvars: usize, maxops: usize) -> Vec<String> {
     for &i in picks.iter() {
         let d = pool[i];
         let head = format!(
-            "wmc n={} order={} d={} P={} wn={} wa={} wr={}",
+            "wmc n={} order={} d={} P={} wn={} wa={} wr={} wc={}",
             n,
             csv(&prog.order),
             bdd_raw_string(d),
             p,
             pairs(&wn),
             pairs(&wa),
-            csv(&wr)
+            csv(&wr),
+            wc.iter().map(|(a, b)| format!("{}:{}", a, b)).collect::<Vec<_>>().join(",")
         );
         let r = guarded(|| {
             let tt: String = (0..(1usize << n))
@@ -156,11 +159,20 @@ pub fn wmc_lines(rng: &mut Rng, maxvars: usize, maxops: usize) -> Vec<String> {
                 );
             }
             let cr = d.unsmoothed_wmc(&WmcParams::new(rm)).0;
+            let mut cm = HashMap::new();
+            for (x, (a, bq)) in wc.iter().enumerate() {
+                let (re, im) = (*a as f64 / 4.0, *bq as f64 / 4.0);
+                cm.insert(VarLabel::new_usize(x), (Complex { re, im }, Complex { re: 1.0 - re, im: -im }));
+            }
+            let cxp = WmcParams::new(cm);
+            let cx = d.unsmoothed_wmc(&cxp);
+            let cxn = d.neg().unsmoothed_wmc(&cxp);
             let (sh, shw) = by_prime!(pi, sem_hash, d, n);
             let (shn, _) = by_prime!(pi, sem_hash, d.neg(), n);
             format!(
-                "tt={} cn={} ca={} sm={} sa={} mc={} cr={} nodes={} sh={} shn={} shw={} smk={}",
-                tt, cn, ca, bdd_raw_string(sm), sa, mc, f64_exact(cr), d.count_nodes(), sh, shn, pairs(&shw), smk.join(";")
+                "tt={} cn={} ca={} sm={} sa={} mc={} cr={} cx={},{} cxn={},{} nodes={} sh={} shn={} shw={} smk={}",
+                tt, cn, ca, bdd_raw_string(sm), sa, mc, f64_exact(cr), f64_exact(cx.re), f64_exact(cx.im),
+                f64_exact(cxn.re), f64_exact(cxn.im), d.count_nodes(), sh, shn, pairs(&shw), smk.join(";")
             )
         });
         out.push(format!("{} => {}", head, r.unwrap_or_else(|e| e)));
